@@ -9,6 +9,7 @@ pub mod big;
 pub mod uf;
 pub mod ops;
 
+pub mod probe;
 pub mod c02;
 pub mod c03;
 pub mod c04;
@@ -17,9 +18,12 @@ pub mod c06;
 pub mod c07;
 pub mod c08;
 pub mod c09;
+pub mod c12;
 
 #[rustfmt::skip]
 pub mod gen_cells;
+#[rustfmt::skip]
+pub mod gen_consts;
 #[rustfmt::skip]
 #[cfg(not(kani))]
 pub mod gen_registry;
